@@ -146,7 +146,8 @@ pub fn child_main(dir: PathBuf, serve: bool) -> ! {
             let store = store.clone();
             let engine = engine.clone();
             rt.spawn(async move {
-                if let Err(e) = xs::api::serve(store, engine, None).await {
+                // XSMON_EXPOSE=<host:port>: also listen on TCP (the client library's other transport)
+                if let Err(e) = xs::api::serve(store, engine, std::env::var("XSMON_EXPOSE").ok()).await {
                     eprintln!("[child] api::serve ended: {}", e);
                 }
             });
